@@ -41,7 +41,7 @@ const c20CloseMarker = "close-mode "
 func c20CloseRounds(mux bool) int {
 	n := map[bool]int{false: 120, true: 2}[mux]
 	if tier() == "thorough" {
-		n = map[bool]int{false: 1500, true: 6}[mux]
+		n = map[bool]int{false: 500, true: 3}[mux]
 	}
 	if v := os.Getenv("VERIF_C20_CLOSE_ROUNDS"); v != "" {
 		fmt.Sscanf(v, "%d", &n)
